@@ -112,7 +112,7 @@ func (l *Lexer) scanInLine() Token {
 	case ch == '"':
 		return l.scanQuotedCommodity()
 	case ch == '-' || ch == '+':
-		if l.nextIsCurrencySymbol() || l.nextIsLetterCommodity() || l.nextIsDigit() {
+		if l.nextIsCurrencySymbol() || l.nextIsLetterCommodity() || l.nextIsDigit() || l.nextIsQuote() {
 			return l.scanSign()
 		}
 		return l.scanText()
@@ -571,6 +571,11 @@ func (l *Lexer) nextIsDigit() bool {
 	return l.isDigit(l.input[l.pos+1])
 }
 
+// nextIsQuote: the sign is followed by a quoted commodity (-"a b"2).
+func (l *Lexer) nextIsQuote() bool {
+	return l.pos+1 < len(l.input) && l.input[l.pos+1] == '"'
+}
+
 func (l *Lexer) nextIsLetterCommodity() bool {
 	pos := l.pos + 1
 	if pos >= len(l.input) {
@@ -591,6 +596,13 @@ func (l *Lexer) nextIsLetterCommodity() bool {
 	}
 	if (ch == '-' || ch == '+') && pos+1 < len(l.input) && l.isDigit(l.input[pos+1]) {
 		return true
+	}
+	// a commodity code separated from its quantity by blanks: -USD 2
+	if ch == ' ' && l.isAllUppercase(l.input[l.pos+1:pos]) {
+		for pos < len(l.input) && l.input[pos] == ' ' {
+			pos++
+		}
+		return pos < len(l.input) && l.isDigit(l.input[pos])
 	}
 	return false
 }
